@@ -880,13 +880,18 @@ pub(super) fn translate_ident_part(ident: String, ctx: &Context) -> sql_ast::Ide
             if is_bare && !keywords::is_keyword(&ident, &ctx.dialect_enum) {
                 sql_ast::Ident::new(ident)
             } else {
-                sql_ast::Ident::with_quote(ctx.dialect.ident_quote(), ident)
+                quoted_ident(ctx.dialect.ident_quote(), ident)
             }
         }
-        IdentQuotingStyle::AlwaysQuoted => {
-            sql_ast::Ident::with_quote(ctx.dialect.ident_quote(), ident)
-        }
+        IdentQuotingStyle::AlwaysQuoted => quoted_ident(ctx.dialect.ident_quote(), ident),
     }
+}
+
+fn quoted_ident(quote: char, ident: String) -> sql_ast::Ident {
+    // sqlparser writes a quote that is doubled or follows a backslash as it is
+    // (it assumes such text is already escaped), so double every quote here.
+    let doubled = quote.to_string().repeat(2);
+    sql_ast::Ident::with_quote(quote, ident.replace(quote, &doubled))
 }
 
 pub(super) fn translate_operand(
